@@ -12,10 +12,11 @@ MANIFEST = dict(
           "analyzer_diagnostics cache) are those of a freshly started server after every history; a change, a save and a close reset the document "
           "itself; requests never make a cached table stale; if every cached table is the fresh chain of its document (AllFresh) then every "
           "cross-file answer (definition, completion, v2 diagnostics, prepareTypeHierarchy) is fresh, and AllFresh is preserved by save always and "
-          "by change/close exactly when no OTHER document holds a table linked to the changed one and (close) the DocumentInfo holds no table. "
-          "Outside three decidable classes of histories every answer equals the fresh server's (C02_holds_outside_partial); each class is REFUTED "
-          "by a shortest history (vm_compute): a dependent keeps the pre-change table of its ancestor; DocumentInfo::symbol_table survives "
-          "didClose; the class tree is never rebuilt. Tie to the code: generated sequential histories (client waits for every response) over "
+          "by change/close exactly when no OTHER document holds a table linked to the changed one. "
+          "Outside two decidable classes of histories every answer equals the fresh server's (C02_holds_outside_partial); each class is REFUTED "
+          "by a shortest history (vm_compute): a dependent keeps the pre-change table of its ancestor; the class tree is never rebuilt. A third "
+          "class (DocumentInfo::symbol_table surviving didClose) was repaired by /repo 9bf8fa8: the model follows the fixed handler, the old one "
+          "is kept as a regression theorem (C02_old_close_refuted) and its witness must now be answered fresh on every run. Tie to the code: generated sequential histories (client waits for every response) over "
           "generated 2-4 class workspaces whose member names and line offsets encode (document, version), so the provenance of every answer "
           "(which version of which document it was computed from) is read off the answer and compared with the model's prediction on EVERY "
           "response - also on the refuted classes, where both are stale in the same way - and every response is compared with a freshly "
@@ -43,7 +44,6 @@ SERVER_ENV = "GOLDVERIF_SERVER_BIN"      # mutant testing only: path of an alter
 
 CLASSES = {   # id of the finding -> letter printed by the model engine for the situation
     "dependent-keeps-prechange-ancestor-table": "d",
-    "symbol-table-survives-close": "c",
     "class-tree-never-rebuilt": "t",
 }
 PROPOSED_FINDINGS = [
@@ -51,14 +51,15 @@ PROPOSED_FINDINGS = [
      "class": "KnownClass_C02 / known_dep (Model/Cache.v trigger_dep): a didChange or didClose changes the logical text of p while another document holds a cached table (DocumentInfo::symbol_table or the annotated table of its visible Document) whose parent chain contains p",
      "what": "a dependent's cached annotated tree / symbol table keeps the Arc of its ancestor's PRE-change table: completion, definition, prepareTypeHierarchy in the child keep answering from the ancestor's old text until the child itself is changed or saved",
      "witness": "0:-,0:0;Rc1,C0:1:-,Rc1", "status": "open"},
-    {"property": "C02", "id": "symbol-table-survives-close",
-     "class": "KnownClass_C02 / known_close (trigger_close): didClose of p whose opened text differs from the file while DocumentInfo::symbol_table of p is set",
-     "what": "notify_document_closed drops saved and opened but not symbol_table: after closing an edited, unsaved document every cross-file look-up through it (children's chains, hierarchy items) still uses the table of the closed text instead of the file",
-     "witness": "0:-,0:0;C0:1:-,Rc0,X0,Rc1", "status": "open"},
     {"property": "C02", "id": "class-tree-never-rebuilt",
      "class": "KnownClass_C02 / known_tree (trigger_tree): a typeHierarchy/supertypes or subtypes request when the parent named by some document's logical header differs from the one it had at start-up",
      "what": "the class tree is built once in main_loop: after a header change (didChange, also after didSave) typeHierarchy/supertypes and subtypes keep answering with the start-up inheritance relation",
      "witness": "0:-,0:-,0:0;C2:1:1,Ru2", "status": "open"},
+]
+
+# repaired defects: their witnesses run on every build and must now be answered as a fresh server answers them
+REGRESSIONS = [
+    ("symbol-table-survives-close (fixed by /repo 9bf8fa8: notify_document_closed calls reset_all_data)", "0:-,0:0;C0:1:-,Rc0,X0,Rc1"),
 ]
 
 # ---------------------------------------------------------------------------------------------
@@ -523,7 +524,7 @@ def run_history(binary, ws, evs, scratch, with_fresh=True):
 
 def known(fired, listed, agree):
     """a stale answer belongs to a known finding iff the model predicted exactly this (stale) provenance and the
-    history so far is in one of the LISTED classes (situations d/c/t computed by the extracted KnownClass predicates)"""
+    history so far is in one of the LISTED classes (situations d/t computed by the extracted KnownClass predicates)"""
     return sorted(c for c in fired if c in listed) if agree else []
 
 
@@ -664,7 +665,7 @@ def parse_witness(w):
 
 def replay_payload(ws, evs, recs, pred, trig, problem, extra=None):
     k = problem[0]
-    rec = recs[k] if k < len(recs) else {}
+    rec = recs[k] if 0 <= k < len(recs) else {}
     d = {"engine": "E-bb", "case": {"workspace": ws, "events": [list(e) for e in evs]}, "case_line": case_of(ws, evs),
          "case_readable": show_history(ws, evs), "failing_step": k,
          "observed": rec.get("norm"), "expected": {"fresh_server_answer": rec.get("fresh_norm"), "clause": problem[2]},
@@ -677,13 +678,14 @@ def replay_payload(ws, evs, recs, pred, trig, problem, extra=None):
 
 def correspondence(ctx, broken_obligations=()):
     binary = server_binary()
+    diff.Engines.model()        # build the model runner once, before the worker threads use it
     listed = listed_classes(ctx)
     scratch = tempfile.mkdtemp(prefix="goldverif-c02-")
     t0 = time.time()
     try:
         n = 150 if ctx.quick else 2000
         hists = []
-        # the witnesses of the three refuted classes always run first (proposed or listed)
+        # the witnesses of the refuted classes always run first (proposed or listed), then the regression cases
         wit = [(f["id"], parse_witness(f["witness"])) for f in PROPOSED_FINDINGS]
         for f in ctx.open_findings():
             if f.get("id") in CLASSES and f.get("witness"):
@@ -691,7 +693,8 @@ def correspondence(ctx, broken_obligations=()):
         for i in range(n):
             rng = random.Random(ctx.seed * 1000003 + i)
             hists.append(gen_history(rng))
-        allh = [w for (_, w) in wit] + hists
+        regs = [parse_witness(w) for (_, w) in REGRESSIONS]
+        allh = [w for (_, w) in wit] + regs + hists
 
         def work(h):
             try:
@@ -701,7 +704,7 @@ def correspondence(ctx, broken_obligations=()):
 
         def work_cyclic(h):
             try:
-                probs, stats, recs, pred, trig = check_one(binary, h[0], h[1], scratch, set("dct"), with_fresh=False)
+                probs, stats, recs, pred, trig = check_one(binary, h[0], h[1], scratch, set("dt"), with_fresh=False)
                 return probs, stats, recs, pred, trig
             except Exception as ex:
                 return [(0, "violation", "check machinery: %r" % (ex,))], {}, [], [], []
@@ -733,7 +736,7 @@ def correspondence(ctx, broken_obligations=()):
                         "kinds) over generated workspaces of 2-4 classes in a forest; edits = new version with members renamed, a declaration inserted or deleted, "
                         "the parent class changed (acyclic), the referenced ancestor member changed, syntax broken (stray bracket / unterminated string) and repaired; "
                         "every response compared with the model's predicted provenance and with a freshly started server on the logical workspace; "
-                        "non-trivial = at least 2 requests and at least one change/save/close; the 3 refutation witnesses run first",
+                        "non-trivial = at least 2 requests and at least one change/save/close; the refutation witnesses and the regression witnesses run first",
                    samples=[case_of(*allh[0]), case_of(*hists[0]), json.dumps(show_history(*hists[-1]))[:600]],
                    cyclic_stream=dict(histories=len(cyc), provenance_compared_with_model=sum(r[1].get("provenance_compared", 0) for r in cyc_results),
                                       note="header edits that close inheritance cycles; model's predicted provenance only (no fresh-server oracle)"),
@@ -752,6 +755,17 @@ def correspondence(ctx, broken_obligations=()):
                     v.coverage = cov
                     raise v
                 ctx.known("%s: %s" % (fid, listed[letter].get("what", listed[letter].get("class", ""))[:200]))
+
+        # repaired defects must stay repaired: every answer of a regression witness is the fresh server's
+        for (what, _), w, (probs, stats, recs, pred, trig) in zip(REGRESSIONS, regs, results[len(wit): len(wit) + len(regs)]):
+            stale = [k for k, r in enumerate(recs) if r.get("fresh_norm") is not None and r["norm"] != r["fresh_norm"]]
+            if stale or probs:
+                p0 = probs[0] if probs else (stale[0], "violation", "regression: " + what)
+                path = core.write_replay(ctx.pid, ctx.seed, replay_payload(w[0], w[1], recs, pred, trig, p0, {"regression_of": what}))
+                v = core.Violation("regression of a repaired defect: " + what, path, True)
+                v.coverage = cov
+                raise v
+        cov["regressions_replayed"] = [what for (what, _) in REGRESSIONS]
 
         # anything else
         worst = None
@@ -784,6 +798,7 @@ def correspondence(ctx, broken_obligations=()):
 
 def replay(ctx, rep):
     binary = server_binary()
+    diff.Engines.model()
     listed = listed_classes(ctx)
     scratch = tempfile.mkdtemp(prefix="goldverif-c02-")
     try:
